@@ -35,8 +35,10 @@ import (
 // C33: if a read of block metadata / markers / the listing fails in a sync, the compactor neither
 // compacts, marks nor deletes anything in that iteration.
 //
-// Case: lister concurrent|recursive, kind list|exists|meta|delmark|nocompact|none, j: the j-th read
-// of that kind issued INSIDE a sync (MetadataFetcher.Fetch) of the first iteration fails once.
+// Case: lister concurrent|recursive, kind list|exists|meta|delmark|nocompact|none: the j-th read
+// call of that kind issued INSIDE a sync (MetadataFetcher.Fetch) of the first iteration fails once;
+// kind meta_body|delmark_body|nocompact_body: the j-th such Get succeeds but the reader it returns
+// fails at pos zero|mid|last (before the first byte, after half the bytes, before the last byte).
 
 type c33World struct {
 	objs    map[string][]byte
@@ -183,6 +185,12 @@ func (f *syncMarkFetcher) Fetch(ctx context.Context) (map[ulid.ULID]*metadata.Me
 func (f *syncMarkFetcher) UpdateOnChange(l func([]metadata.Meta, error)) { f.inner.UpdateOnChange(l) }
 
 func c33Kind(op bucketrec.Op) string {
+	if op.Kind == "get_body" { // the body of a successful Get failed while being read
+		if k := c33Kind(bucketrec.Op{Kind: "get", Name: op.Name}); k != "" {
+			return k + "_body"
+		}
+		return ""
+	}
 	switch {
 	case (op.Kind == "iter" || op.Kind == "iter_attrs") && op.Name == "":
 		return "list"
@@ -213,7 +221,7 @@ func TestC33(t *testing.T) {
 	}
 	// reference runs without a fault (also show that every stage mutates when the view is complete)
 	for _, ls := range []string{"concurrent", "recursive"} {
-		run(vt.Case{"lister": ls, "kind": "none", "j": 0, "src": "ref"})
+		run(vt.Case{"lister": ls, "kind": "none", "j": 0, "pos": "none", "src": "ref"})
 	}
 	for _, c := range vt.TLCCases(t) {
 		c["src"] = "tlc"
@@ -221,15 +229,19 @@ func TestC33(t *testing.T) {
 	}
 	// seeded random: later positions and different fetch concurrency
 	rnd := vt.Rand()
-	kinds := []string{"list", "exists", "meta", "delmark", "nocompact"}
-	n := vt.Pick(10, 150)
+	kinds := []string{"list", "exists", "meta", "delmark", "nocompact", "meta_body", "delmark_body", "nocompact_body", "meta_body"}
+	n := vt.Pick(12, 150)
 	for i := 0; i < n; i++ {
 		k := kinds[rnd.Intn(len(kinds))]
 		ls := []string{"concurrent", "recursive"}[rnd.Intn(2)]
 		if k == "exists" {
 			ls = "concurrent"
 		}
-		run(vt.Case{"lister": ls, "kind": k, "j": 1 + rnd.Intn(45), "fconc": 1 + rnd.Intn(8), "src": "rand"})
+		pos := "none"
+		if strings.HasSuffix(k, "_body") {
+			pos = []string{"zero", "mid", "last"}[rnd.Intn(3)]
+		}
+		run(vt.Case{"lister": ls, "kind": k, "j": 1 + rnd.Intn(45), "pos": pos, "fconc": 1 + rnd.Intn(8), "src": "rand"})
 	}
 }
 
@@ -251,10 +263,10 @@ func runC33(t *testing.T, tr *vt.Tracer, caseID int64, c vt.Case) {
 		if err := inner.Upload(ctx, name, strings.NewReader(string(b))); err != nil {
 			t.Fatal(err)
 		}
-		if w.oldObjs[name] {
-			if err := inner.ChangeLastModified(name, time.Now().Add(-100*time.Hour)); err != nil {
-				t.Fatal(err)
-			}
+		// EVERY object is older than the partial-upload threshold (48 h): a healthy block that a sync wrongly
+		// classifies as partial (no / corrupted meta.json) is deleted by the partial-upload cleanup
+		if err := inner.ChangeLastModified(name, time.Now().Add(-100*time.Hour)); err != nil {
+			t.Fatal(err)
 		}
 	}
 	rec := bucketrec.New(inner)
@@ -341,7 +353,13 @@ func runC33(t *testing.T, tr *vt.Tracer, caseID int64, c vt.Case) {
 		return nil
 	}
 
-	if kind != "none" {
+	switch {
+	case kind == "none":
+	case strings.HasSuffix(kind, "_body"):
+		// the Get succeeds, the reader it returns fails at byte 0 / in the middle / before the last byte
+		base := strings.TrimSuffix(kind, "_body")
+		rec.FailBody(func(k, name string) bool { return c33Kind(bucketrec.Op{Kind: k, Name: name}) == base }, j, vt.Str(c["pos"]), inSync.Load)
+	default:
 		rec.FailRead(func(k, name string) bool { return c33Kind(bucketrec.Op{Kind: k, Name: name}) == kind }, j, inSync.Load)
 	}
 	var mutsPer [2]int64
@@ -353,7 +371,7 @@ func runC33(t *testing.T, tr *vt.Tracer, caseID int64, c vt.Case) {
 		mutsPer[it-1] = muts.Load() - before
 		tr.Emit(vt.Event{"ev": "IterEnd", "case": caseID, "it": it, "ok": err == nil})
 		if it == 1 {
-			fired = rec.ReadFaultFired()
+			fired = rec.ReadFaultFired() || rec.BodyFaultFired()
 			rec.Heal()
 		}
 	}
